@@ -8,6 +8,7 @@ import (
 	"os"
 	"path/filepath"
 	"sort"
+	"strings"
 	"time"
 	"unicode/utf8"
 
@@ -34,6 +35,7 @@ type histEv struct {
 	Res     [][]int `json:"-"`
 	ResQ    []int   `json:"-"`
 	ResAny  any     `json:"res"`
+	MQ      []int   `json:"mq"` // pattern: ids of the known queries that contain the pattern
 	Total   int     `json:"total"`
 	Unique  int     `json:"unique"`
 	FCls    string  `json:"fcls"`
@@ -97,7 +99,7 @@ func (d *histDriver) pairs(es []history.SearchEntry) [][]int {
 
 func (d *histDriver) emit(ev *histEv) {
 	ev.Ents = d.pairs(d.h.Entries)
-	ev.Max = d.h.MaxSize
+	ev.Max = clamp32(d.h.MaxSize)
 	// dense ranks of the time stamps
 	// (entries of a foreign file carry whatever times its author wrote: only the program's own stamps are judged)
 	ts := make([]int64, 0, len(d.h.Entries))
@@ -115,6 +117,9 @@ func (d *histDriver) emit(ev *histEv) {
 	}
 	if ev.FEnts == nil {
 		ev.FEnts = [][]int{}
+	}
+	if ev.MQ == nil {
+		ev.MQ = []int{}
 	}
 	if ev.ResAny == nil {
 		ev.ResAny = []int{}
@@ -191,7 +196,7 @@ func (d *histDriver) setFile(cls string, fmax int, queries []string, raw []byte)
 		}
 		b, _ := json.Marshal(map[string]interface{}{"entries": fes, "max_size": fmax})
 		os.WriteFile(d.path, b, 0o644)
-		ev.FMax = fmax
+		ev.FMax = clamp32(fmax) // (TLC integers are 32 bits wide: a monotone clamp)
 	}
 	d.emit(ev)
 }
@@ -234,8 +239,20 @@ func (d *histDriver) load() {
 	if d.dead {
 		return
 	}
-	err := d.h.Load()
-	d.emit(&histEv{Op: "load", OK: err == nil})
+	ev := &histEv{Op: "load"}
+	func() {
+		defer func() {
+			if r := recover(); r != nil {
+				ev.Panic = true
+				ev.Note = fmt.Sprint(r)
+			}
+		}()
+		ev.OK = d.h.Load() == nil
+	}()
+	d.emit(ev)
+	if ev.Panic {
+		d.dead = true // recording a search would have crashed right here
+	}
 }
 
 func (d *histDriver) clear() {
@@ -255,6 +272,22 @@ func (d *histDriver) recent(n int) {
 		res = append(res, d.qid(q))
 	}
 	d.emit(&histEv{Op: "recent", N: n, ResAny: res})
+}
+
+// pattern: the entries whose query contains the pattern (any letter case); the driver says which known queries match
+func (d *histDriver) pattern(p string) {
+	if d.dead {
+		return
+	}
+	res := d.pairs(d.h.GetEntriesByPattern(p))
+	mq := []int{}
+	for k, id := range d.qids {
+		if b, err := hex.DecodeString(k); err == nil && strings.Contains(strings.ToLower(string(b)), strings.ToLower(p)) {
+			mq = append(mq, id)
+		}
+	}
+	sort.Ints(mq)
+	d.emit(&histEv{Op: "pattern", ResAny: res, MQ: mq})
 }
 
 func (d *histDriver) top(n int) {
@@ -399,8 +432,10 @@ func histRandom(args []string) int {
 				d.recent(1 + r.Intn(5))
 			case x < 85:
 				d.top(1 + r.Intn(6))
-			case x < 89:
+			case x < 87:
 				d.stats()
+			case x < 89:
+				d.pattern([]string{"", "git", "LIST", "a", "zzz", " "}[r.Intn(6)])
 			default:
 				switch r.Intn(5) {
 				case 0:
@@ -416,7 +451,7 @@ func histRandom(args []string) int {
 						qs[j] = tpool[r.Intn(nq)]
 					}
 					d.tsMode = r.Intn(5)
-					d.setFile("valid", []int{-3, 0, 1, 2, 5, 100, -1}[r.Intn(7)], qs, nil)
+					d.setFile("valid", []int{-3, 0, 1, 2, 5, 100, -1, 1 << 40, 1<<62 + 5, 1<<63 - 2}[r.Intn(10)], qs, nil)
 				}
 			}
 		}
